@@ -7,8 +7,10 @@ package main
 
 import (
 	"bytes"
+	"encoding/hex"
 	"fmt"
 	"math"
+	"os"
 	"strconv"
 	"strings"
 
@@ -198,6 +200,14 @@ func exec(t []string) string {
 			}
 		}
 		return bitsOf(f) + " " + sb.String()
+	case "reload": // reload <bitsA> <hfA> <twA> <bitsB> <hfB> <twB> <data>: one Filter object, loaded with A, then Reload(B)
+		f := mkFilter(t[1], t[2], t[3], "-")
+		nb := mkFilter(t[4], t[5], t[6], "-").GetFilterLoadMsg()
+		f.Reload(nb)
+		d := hx.UnHex(t[7])
+		before := f.Matches(d)
+		f.Add(d)
+		return b2s(before) + " " + bitsOf(f) + " " + b2s(f.Matches(d))
 	case "ser": // ser <bits> <hf> <tw> <flags> <types>
 		f := mkFilter(t[1], t[2], t[3], t[5]).GetFilterLoadMsg()
 		f.Flags = uint8(atoi(t[4]))
@@ -261,6 +271,114 @@ func exec(t []string) string {
 	panic("harness: unknown op " + t[0])
 }
 
+// ---------------------------------------------------------------- protocol reference (independent of /repo)
+//
+// What a remote wallet computes: MurmurHash3 x86_32 as published (Appleby, SMHasher) and the
+// BIP37 bit positions.  Written from the specification, checked against published test vectors at
+// start-up; it shares no code with elanet/bloom.
+
+func refMurmur(seed uint32, data []byte) uint32 {
+	h := seed
+	n := len(data)
+	for i := 0; i+4 <= n; i += 4 {
+		k := uint32(data[i]) | uint32(data[i+1])<<8 | uint32(data[i+2])<<16 | uint32(data[i+3])<<24
+		k *= 0xcc9e2d51
+		k = k<<15 | k>>17
+		k *= 0x1b873593
+		h ^= k
+		h = h<<13 | h>>19
+		h = h*5 + 0xe6546b64
+	}
+	var k uint32
+	t := data[n&^3:]
+	switch len(t) {
+	case 3:
+		k ^= uint32(t[2]) << 16
+		fallthrough
+	case 2:
+		k ^= uint32(t[1]) << 8
+		fallthrough
+	case 1:
+		k ^= uint32(t[0])
+		k *= 0xcc9e2d51
+		k = k<<15 | k>>17
+		k *= 0x1b873593
+		h ^= k
+	}
+	h ^= uint32(n)
+	h ^= h >> 16
+	h *= 0x85ebca6b
+	h ^= h >> 13
+	h *= 0xc2b2ae35
+	h ^= h >> 16
+	return h
+}
+
+// published MurmurHash3_x86_32 vectors (SMHasher verification values as circulated with the
+// reference implementation, and the vectors of the BIP37 implementations' test suites)
+var murmurVectors = []struct {
+	seed uint32
+	data string // hex
+	want uint32
+}{
+	{0x00000000, "", 0x00000000}, {0x00000001, "", 0x514e28b7}, {0xffffffff, "", 0x81f16f39},
+	{0x00000000, "ffffffff", 0x76293b50}, {0x00000000, "21436587", 0xf55b516b}, {0x5082edee, "21436587", 0x2362f9de},
+	{0x00000000, "214365", 0x7e4a8634}, {0x00000000, "2143", 0xa0f7b07a}, {0x00000000, "21", 0x72661cf4},
+	{0x00000000, "00000000", 0x2362f9de}, {0x00000000, "000000", 0x85f0b427}, {0x00000000, "0000", 0x30f4c306},
+	{0x00000000, "00", 0x514e28b7},
+	{0xfba4c795, "", 0x6a396f08}, {0xfba4c795, "00", 0xea3f0b17}, {0x00000000, "ff", 0xfd6cf10d},
+	{0x00000000, "0011", 0x16c6b7ab}, {0x00000000, "001122", 0x8eb51c3d}, {0x00000000, "00112233", 0xb4471bf8},
+	{0x00000000, "0011223344", 0xe2301fa8}, {0x00000000, "001122334455", 0xfc2e4a15},
+	{0x00000000, "00112233445566", 0xb074502c}, {0x00000000, "0011223344556677", 0x8034d2a0},
+	{0x00000000, "001122334455667788", 0xb4698def},
+}
+
+func init() {
+	for _, v := range murmurVectors {
+		b, _ := hex.DecodeString(v.data)
+		if got := refMurmur(v.seed, b); got != v.want {
+			fmt.Fprintf(os.Stderr, "HARNESS BUG: reference MurmurHash3 fails published vector seed=%08x data=%s: %08x != %08x\n", v.seed, v.data, got, v.want)
+			os.Exit(3)
+		}
+	}
+}
+
+// refPositions are the bit positions BIP37 assigns to data in a filter of n bytes.
+func refPositions(n int, hf, tweak uint32, data []byte) []uint32 {
+	var res []uint32
+	for i := uint32(0); i < hf; i++ {
+		res = append(res, refMurmur(i*0xfba4c795+tweak, data)%(uint32(n)*8))
+	}
+	return res
+}
+
+// refContains: would a wallet following the protocol consider data to be in the filter?
+func refContains(bits []byte, hf, tweak uint32, data []byte) bool {
+	if len(bits) == 0 {
+		return true
+	}
+	for _, p := range refPositions(len(bits), hf, tweak, data) {
+		if bits[p>>3]&(1<<(p&7)) == 0 {
+			return false
+		}
+	}
+	return true
+}
+
+// refInsert: what a wallet does to put data into its filter before sending filterload.
+func refInsert(bits []byte, hf, tweak uint32, data []byte) {
+	if len(bits) == 0 {
+		return
+	}
+	for _, p := range refPositions(len(bits), hf, tweak, data) {
+		bits[p>>3] |= 1 << (p & 7)
+	}
+}
+
+func opData(txid []byte, idx int) []byte {
+	return append(append([]byte(nil), txid...), byte(idx), byte(idx>>8))
+}
+
 // ---------------------------------------------------------------- oracle (independent of the Lean model)
 
 func subset(a, b []byte) bool {
@@ -280,9 +398,47 @@ func oracle(t []string, out string) *hx.Violation {
 		return &hx.Violation{Kind: "panic", Detail: "bloom filter operation panicked: " + hx.LastPanic()}
 	}
 	f := strings.Fields(out)
+	remote := func(what string) *hx.Violation {
+		return &hx.Violation{Kind: "protocol-false-negative", Detail: what + ": a wallet that builds / checks its filter as the protocol specifies (reference MurmurHash3 verified on published vectors, BIP37 bit positions) disagrees with the node, so its items are not matched"}
+	}
+	switch t[0] {
+	case "murmur":
+		sd, _ := strconv.ParseUint(t[1], 16, 32)
+		if want := fmt.Sprintf("%08x", refMurmur(uint32(sd), hx.UnHex(t[2]))); out != want {
+			return remote(fmt.Sprintf("MurmurHash3(%s, %s) = %s, the published algorithm gives %s", t[1], t[2], out, want))
+		}
+	case "match", "matchop":
+		d := hx.UnHex(t[4])
+		if t[0] == "matchop" {
+			d = opData(hx.UnHex(t[4]), atoi(t[5]))
+		}
+		if out == "false" && refContains(hx.UnHex(t[1]), u32(t[2]), u32(t[3]), d) {
+			return remote("the filter contains the item (every protocol bit position is set) but Matches returned false")
+		}
+	case "reload":
+		if len(f) == 3 {
+			d := hx.UnHex(t[7])
+			if f[0] == "false" && refContains(hx.UnHex(t[4]), u32(t[5]), u32(t[6]), d) {
+				return remote("after Reload the new filter contains the item but Matches returned false")
+			}
+			if f[2] != "true" {
+				return &hx.Violation{Kind: "false-negative", Detail: "element does not match right after it was added to a reloaded filter"}
+			}
+			if !refContains(hx.UnHex(f[1]), u32(t[5]), u32(t[6]), d) {
+				return remote("after Reload, Add did not set the protocol bit positions of the item in the new filter")
+			}
+		}
+	}
 	switch t[0] {
 	case "add", "addop":
 		if len(f) == 2 {
+			d := hx.UnHex(t[4])
+			if t[0] == "addop" {
+				d = opData(hx.UnHex(t[4]), atoi(t[5]))
+			}
+			if !refContains(hx.UnHex(f[0]), u32(t[2]), u32(t[3]), d) {
+				return remote("Add did not set the protocol bit positions of the item")
+			}
 			if f[1] != "true" {
 				return &hx.Violation{Kind: "false-negative", Detail: "element does not match right after it was added"}
 			}
@@ -363,6 +519,14 @@ func oracle(t []string, out string) *hx.Violation {
 			if p.f.MatchesOutPoint(op) {
 				exp, why = true, "spent outpoint"
 			}
+			if len(m.Filter) > 0 && refContains(hx.UnHex(t[1]), m.HashFuncs, m.Tweak, op.Bytes()) {
+				exp, why = true, "spent outpoint (protocol reference)"
+			}
+		}
+		for _, ph := range p.outs {
+			if len(m.Filter) > 0 && refContains(hx.UnHex(t[1]), m.HashFuncs, m.Tweak, ph) {
+				exp, why = true, "output script hash (protocol reference)"
+			}
 		}
 		if exp && !got {
 			return &hx.Violation{Kind: "tx-false-negative", Detail: "filter matches the " + why + " but MatchTxAndUpdate returned false"}
@@ -404,6 +568,11 @@ func bucket(t []string, out string) string {
 			return t[0] + "/empty-filter"
 		}
 		return t[0] + "/ok"
+	case "reload":
+		if out == "panic" {
+			return "reload/panic"
+		}
+		return "reload/" + cls
 	case "ser":
 		if out == "err" {
 			return "ser/err"
@@ -780,6 +949,102 @@ func genLoad(g *hx.Gen) {
 	}
 }
 
+// walletFilter builds a filter the way a remote wallet does (reference code only).
+func walletFilter(r *hx.Rand, items [][]byte) fstate {
+	s := fstate{bits: make([]byte, r.Pick(1, 2, 3, 8, 16, 33, 64, 200, 1000)), hf: uint32(1 + r.Intn(12)), tw: uint32(r.U64())}
+	if s.tw == math.MaxUint32 {
+		s.tw = 5
+	}
+	for _, it := range items {
+		refInsert(s.bits, s.hf, s.tw, it)
+	}
+	return s
+}
+
+func genProtocol(g *hx.Gen) {
+	r := g.R
+	// filters built by a remote wallet per the protocol; every inserted item must match.  Item lengths cover
+	// every tail case of MurmurHash3 (n%4 = 0,1,2,3): script hashes (21), tx ids (32), outpoints (34, index >= 256), ...
+	for i := 0; i < g.N(1500, 15000); i++ {
+		var items [][]byte
+		for j := 0; j < 1+r.Intn(4); j++ {
+			switch r.Intn(6) {
+			case 0:
+				items = append(items, r.Bytes(21))
+			case 1:
+				items = append(items, r.Bytes(32))
+			case 2:
+				items = append(items, opData(r.Bytes(32), r.Pick(256, 257, 300, 4096, 65535, 0x0100, 0xff00)))
+			case 3:
+				items = append(items, r.Bytes(r.Pick(2, 3, 6, 7, 34, 35, 66, 67)))
+			default:
+				items = append(items, r.Bytes(1+r.Intn(40)))
+			}
+		}
+		s := walletFilter(r, items)
+		for _, it := range items {
+			if len(it) == 34 && r.Bool() {
+				g.Emit("matchop %s %s %d", s, hx.Hex(it[:32]), int(it[32])|int(it[33])<<8)
+			} else {
+				g.Emit("match %s %s", s, hx.Hex(it))
+			}
+		}
+		// the wallet's filter is loaded, a transaction pays to / spends a watched item
+		if r.Chance(40) {
+			ph := r.Bytes(21)
+			op := ctypes.NewOutPoint(uint256Of(r.Bytes(32)), uint16(r.Pick(256, 511, 65535, 7)))
+			s2 := walletFilter(r, [][]byte{ph, op.Bytes()})
+			if r.Bool() {
+				emitTx(g, s2, nil, 2, uint32(r.U64()), [][]byte{r.Bytes(21), ph}, nil)
+			} else {
+				emitTx(g, s2, nil, 2, uint32(r.U64()), [][]byte{r.Bytes(21)}, []*ctypes.OutPoint{op})
+			}
+		}
+	}
+	// Reload: one Filter object gets a second filterload of a different size
+	for i := 0; i < g.N(800, 8000); i++ {
+		a := randFilter(r, false)
+		d := randData(r)
+		var items [][]byte
+		if r.Chance(60) {
+			items = append(items, d)
+		}
+		b := walletFilter(r, items)
+		switch r.Intn(4) {
+		case 0: // same size
+			b.bits = make([]byte, len(a.bits))
+			for _, it := range items {
+				refInsert(b.bits, b.hf, b.tw, it)
+			}
+		case 1: // shrink to one byte
+			b.bits = make([]byte, 1)
+			for _, it := range items {
+				refInsert(b.bits, b.hf, b.tw, it)
+			}
+		}
+		g.Emit("reload %s %s %s", a, b, hx.Hex(d))
+	}
+	// side-chain SPV filters that carry both a tx-type list and address bits
+	for i := 0; i < g.N(600, 6000); i++ {
+		ph := r.Bytes(21)
+		s := walletFilter(r, [][]byte{ph})
+		s.tw = math.MaxUint32
+		s.bits = make([]byte, len(s.bits))
+		refInsert(s.bits, s.hf, s.tw, ph)
+		listed := txTypes[r.Intn(len(txTypes))]
+		types := []byte{listed}
+		if r.Bool() {
+			types = append(types, txTypes[r.Intn(len(txTypes))])
+		}
+		ty := txTypes[r.Intn(len(txTypes))]
+		outs := [][]byte{r.Bytes(21)}
+		if r.Chance(70) {
+			outs = append(outs, ph)
+		}
+		emitTx(g, s, types, ty, uint32(r.U64()), outs, nil)
+	}
+}
+
 func main() {
-	hx.Main(&hx.Prop{Name: "C39", Gen: func(g *hx.Gen) { gen(g); genLoad(g) }, Exec: exec, Oracle: oracle, Nontrivial: nontrivial, Bucket: bucket})
+	hx.Main(&hx.Prop{Name: "C39", Gen: func(g *hx.Gen) { gen(g); genLoad(g); genProtocol(g) }, Exec: exec, Oracle: oracle, Nontrivial: nontrivial, Bucket: bucket})
 }
